@@ -32,6 +32,12 @@ def run_ref(sc, workdir):
     def drv():
         # multiplexer-like environment: grant after a random delay, keep ready until cmd.last
         mux, wait = 0, 0
+        stim = sc.get("stimulus")
+        if stim:
+            for rdy in stim:
+                yield dut.cmd.ready.eq(int(bool(rdy)))
+                yield
+            return
         for c in range(sc["ncyc"]):
             v, last = (yield dut.cmd.valid), (yield dut.cmd.last)
             if mux == 0:
